@@ -433,13 +433,23 @@ func checkC14(c *core.Ctx) error {
 //   PdfLogTransform(f, c): X = log(Y + c) ~ f  =>  log f_Y(y) = log f(log(y + c)) - log(y + c), -Inf for y < 0
 //   PdfTranslation(f, c):  X = Y + c ~ f       =>  log f_Y(y) = log f(y + c)
 func checkWrappers(c *core.Ctx, p *packages.Package, d *declIndex) {
+	checkWrappersFor(c, p, d, "NormalDistribution")
+	if c.Tier == "thorough" {
+		// further inner families (thorough tier): the change of variables does not depend on the wrapped family
+		checkWrappersFor(c, p, d, "GammaDistribution")
+		checkWrappersFor(c, p, d, "ExponentialDistribution")
+		checkWrappersFor(c, p, d, "CauchyDistribution")
+	}
+}
+
+func checkWrappersFor(c *core.Ctx, p *packages.Package, d *declIndex, innerT string) {
 	var normal *distEntry
 	for i := range scalarDistTable {
-		if scalarDistTable[i].T == "NormalDistribution" {
+		if scalarDistTable[i].T == innerT {
 			normal = &scalarDistTable[i]
 		}
 	}
-	nctor := findFuncDecl(p, "NewNormalDistribution")
+	nctor := findFuncDecl(p, "New"+innerT)
 	if normal == nil || nctor == nil {
 		c.Unknown("C14.R6", "statistics/scalarDistribution wrappers", "inner family available", 0, "normal distribution not found")
 		return
@@ -449,7 +459,10 @@ func checkWrappers(c *core.Ctx, p *packages.Package, d *declIndex) {
 		c.Unknown("C14.R6", "statistics/scalarDistribution wrappers", "inner family interpreted", nctor.Pos(), "constructor of the inner family could not be interpreted")
 		return
 	}
-	P := map[string]*sym.Term{"mu": sym.Sym("mu"), "sigma": sym.Sym("sigma")}
+	P := map[string]*sym.Term{}
+	for _, pn := range normal.params {
+		P[pn] = sym.Sym(pn)
+	}
 	f := normal.variants[0].formula
 	x := sym.Sym("x")
 	cc := sym.Sym("pseudocount")
@@ -513,10 +526,10 @@ func checkWrappers(c *core.Ctx, p *packages.Package, d *declIndex) {
 				c.Check(atoms[sp], "C14.R2", cons, "value path carries "+sp, lp.Pos(), "the wrapper returns a finite value on the path ["+mp.conds+"] without requiring "+sp)
 			}
 			eq := sym.Equal(mp.result, w.want) || sym.Equal(sym.LogExpand(mp.result), sym.LogExpand(w.want))
-			c.Check(eq, "C14.R6", cons, "LogPdf applies the change of variables (inner family: normal) ["+shortConds(mp.conds)+"]", lp.Pos(),
+			c.Check(eq, "C14.R6", cons, "LogPdf applies the change of variables (inner family: "+innerT+") ["+shortConds(mp.conds)+"]", lp.Pos(),
 				"the wrapper evaluates to "+mp.result.String()+" but the log-density of the transformed variable is "+w.want.String())
 		}
-		c.Check(nval > 0, "C14.R6", cons, "wrapper LogPdf has a value-returning path", lp.Pos(), "no value-returning path")
+		c.Check(nval > 0, "C14.R6", cons, "wrapper LogPdf has a value-returning path (inner family: "+innerT+")", lp.Pos(), "no value-returning path")
 	}
 }
 
